@@ -181,10 +181,17 @@ class C10Monitor(Monitor):
             act = sum(1 for d in target if d.is_active)
             inact = len(target) - act
             with_children = tuple(bool(p.children) for p in parents)
-            sig = (nl, plevel, len(parents), act, min(inact, 3), mx, with_children)
+            big = sum(len(target) > t for t in (32, 64, 128, 256))  # beyond the small scope: dozens / hundreds of demes on the target level
+            sig = (nl, plevel, len(parents), act, min(inact, 3), mx, with_children, big)
             if sig in C10Monitor.seen:
                 continue
             C10Monitor.seen.add(sig)
+            if big:
+                x.flag(f"target level with more than {(32, 64, 128, 256)[big - 1]} demes")
+            sig3 = ("large-sets", mx, len(parents), act)
+            if sig3 not in C10Monitor.seen and act <= 10:
+                C10Monitor.seen.add(sig3)
+                self.large_sets(tree, plevel, parents, act, mx)
             x.flag(f"occupancy parents={len(parents)} active={act} inactive={min(inact, 3)}")
             self.enumerate_filters(tree, plevel, parents, act, mx)
             self.skip_same(tree, plevel, parents, mx)
@@ -195,7 +202,8 @@ class C10Monitor(Monitor):
 
     def mk(self, problem, fits, offset=0.0):
         d = len(problem.bounds)
-        return [Individual(np.array([1000.0 + 7.0 * i + offset, -3.0 * i, 0.5, 0.25, -1.0, 2.0][:d] if d != 1 else [1000.0 + 7.0 * i + offset]), problem, float(f)) for i, f in enumerate(fits)]
+        tail = ([0.5, 0.25, -1.0, 2.0] * 10)[: max(d - 2, 0)]
+        return [Individual(np.array(([1000.0 + 7.0 * i + offset, -3.0 * i] + tail)[:d]), problem, float(f)) for i, f in enumerate(fits)]
 
     def enumerate_filters(self, tree, plevel, parents, act, mx):
         x = self.x
@@ -273,6 +281,64 @@ class C10Monitor(Monitor):
                                           f"composed mechanism (order {order}) kept {tot} candidates with {L - act_t} free slots (fitness {fits})")
                             if any(not c.individuals for c in seeds.values()):
                                 x.violate("C10/empty-entry-returned", "get_seeds returned an empty candidate list")
+
+    def large_sets(self, tree, plevel, parents, act, mx):
+        """Beyond the small scope: 150 / 300 candidates with distinct fitness values in one call (threshold-switched code paths)."""
+        x = self.x
+        problem = x.w.level_configs[plevel].problem
+        btr = (lambda a, b: a > b) if mx else (lambda a, b: a < b)
+        act = max([act] + [sum(1 for d in lv if d.is_active) for lv in tree.levels[1:]])
+        act_t = sum(1 for d in tree.levels[plevel + 1] if d.is_active)
+        for n in (150, 300):
+            fits = [float((i * 37) % n) * (-1.0 if mx else 1.0) + 0.001 * i for i in range(n)]
+            sp = [n // len(parents)] * len(parents)
+            sp[0] += n - sum(sp)
+            for L in (10, 40):
+                if act > L:
+                    continue
+                inds = self.mk(problem, fits)
+                groups, k = [], 0
+                for c in sp:
+                    groups.append(inds[k : k + c])
+                    k += c
+                out = LevelLimit(L)({p: DemeCandidates(list(g), DemeFeatures()) for p, g in zip(parents, groups)}, tree)
+                x.extra_count("C10 filter applications")
+                self.judge_level(out, parents, groups, inds, L - act_t, btr, f"LevelLimit({L}) active={act_t} on {n} candidates", mx, "(%d distinct values)" % n, sp)
+            for lim in (10, 200):
+                inds = self.mk(problem, fits)
+                out = DemeLimit(lim)({parents[0]: DemeCandidates(list(inds), DemeFeatures())}, tree)
+                kept = out[parents[0]].individuals
+                self.subset(kept, inds, f"DemeLimit({lim})")
+                dropped = [i for i in inds if not any(i is k for k in kept)]
+                if len(kept) != min(lim, len(inds)):
+                    x.violate("C10/demelimit-size", f"DemeLimit({lim}) kept {len(kept)} of {len(inds)} candidates (maximize={mx})")
+                if dropped and kept and any(btr(d.fitness, k.fitness) for d in dropped[:: max(1, len(dropped) // 20)] for k in kept[:: max(1, len(kept) // 20)]):
+                    x.violate(f"C10/demelimit-dropped-better:maximize={mx}", f"DemeLimit({lim}) on {n} candidates dropped a candidate strictly better than a kept one (maximize={mx})")
+        x.flag("filters applied to 150 / 300 candidates at once")
+        # a long target level (only the active / finished pattern of its demes matters to the filter): an old deme that is still active
+        # behind dozens of finished ones, active demes scattered among finished ones
+        class _D:
+            def __init__(s, active):
+                s.is_active, s._active, s._hibernating, s.children, s.level = active, active, False, [], plevel + 1
+
+        class _T:
+            def __init__(s, levels):
+                s.levels = levels
+
+        for pattern in ("A" + "." * 40 + "AA", "." * 70 + "A", "A." * 30 + "." * 40, "AAA" + "." * 300):
+            fake = [_D(c == "A") for c in pattern]
+            levels = [list(lv) for lv in tree.levels]
+            levels[plevel + 1] = fake
+            n_act = pattern.count("A")
+            base = max([n_act] + [sum(1 for d in lv if d.is_active) for j, lv in enumerate(levels) if j >= 1 and j != plevel + 1])  # a reachable limit
+            for L in (base, base + 2, base + 5):
+                fits = [float((i * 7) % 11) * (-1.0 if mx else 1.0) + 0.001 * i for i in range(9)]
+                inds = self.mk(problem, fits)
+                groups = [inds[i :: len(parents)] for i in range(len(parents))]
+                out = LevelLimit(L)({p: DemeCandidates(list(g), DemeFeatures()) for p, g in zip(parents, groups)}, _T(levels))
+                x.extra_count("C10 filter applications")
+                self.judge_level(out, parents, groups, inds, L - n_act, btr, f"LevelLimit({L}) on a level of {len(pattern)} demes, {n_act} of them active", mx, fits, "round-robin")
+        x.flag("LevelLimit applied to target levels of 43-303 demes")
 
     def subset(self, kept, inds, what):
         for k in kept:
